@@ -1,4 +1,5 @@
 """C06 - truncated or sync-corrupted files never yield records that were not written."""
+import copy
 import io
 
 import fastavro
@@ -43,7 +44,7 @@ class C06(Check):
         "truncated/corrupted reads. Non-trivial = file with >=2 blocks or a compressed codec."
     )
     assumptions = ["enumeration is exhaustive per generated file within the stated offset set, not over all files"]
-    required_labels = ["blocks>=2", "codec:deflate", "codec:bzip2", "codec:xz", "codec:null", "cut:boundary", "cut:in-header", "cut:in-payload", "cut:in-sync", "sync-altered", "schemaless-prefix", "schemaless-prefix-with-reader-schema", "block-count-2bytes"]
+    required_labels = ["schemaless-prefix:two-writer-fields-one-reader-field", "blocks>=2", "codec:deflate", "codec:bzip2", "codec:xz", "codec:null", "cut:boundary", "cut:in-header", "cut:in-payload", "cut:in-sync", "sync-altered", "schemaless-prefix", "schemaless-prefix-with-reader-schema", "block-count-2bytes"]
     quick = (300, 1)
     thorough = (1500, 16)
     case_timeout_s = 300  # a case enumerates up to 1500 cut offsets of one file
@@ -201,11 +202,31 @@ class C06(Check):
                 rs = dict(js)
                 rs["fields"] = js["fields"][:keep]
                 droppers.append(rs)
+        # a reader field that two writer fields resolve to (by name and by alias): both values are on the stream and both must be
+        # consumed.  The value is written twice under a wrapper; the second use refers to the type by name when it is a named type.
+        twice = None
+        if not table:
+            twice = (copy.deepcopy(js), copy.deepcopy(js))
+        elif isinstance(js, dict) and js.get("type") in ("record", "enum", "fixed") and node["k"] in ("record", "enum", "fixed"):
+            twice = (copy.deepcopy(js), node["name"])
+        if twice is not None:
+            w2 = {"type": "record", "name": "verif.Twice", "fields": [{"name": "first", "type": twice[0]}, {"name": "second", "type": twice[1]}]}
+            r2 = {"type": "record", "name": "verif.Twice", "fields": [{"name": "first", "type": copy.deepcopy(twice[0]), "aliases": ["second"]}]}
         # schemaless prefixes of each record
         for r, e in zip(case["records"][:4], exp):
             fo = io.BytesIO()
             guard("write-conforming", fastavro.schemaless_writer, fo, schema, r)
             enc = fo.getvalue()
+            if twice is not None and enc:
+                both = enc + enc
+                o = outcome(fastavro.schemaless_reader, io.BytesIO(both), w2, r2)
+                if o[0] == "ok":
+                    labels.add("schemaless-prefix:two-writer-fields-one-reader-field")
+                    for k in range(len(both)) if len(both) <= 200 else list(range(0, len(both), 11)) + [len(both) - 1]:
+                        self.fault_points += 1
+                        o = outcome(fastavro.schemaless_reader, io.BytesIO(both[:k]), w2, r2)
+                        if o[0] == "ok":
+                            raise Violation("schemaless-prefix-accepted:alias-and-name", f"prefix {k}/{len(both)} of a record whose two fields resolve to one reader field (name and alias) decoded to {short(o[1])}; field type={js!r:.200}")
             for k in range(len(enc)) if len(enc) <= 300 else list(range(0, len(enc), 7)) + [len(enc) - 1]:
                 self.fault_points += 1
                 labels.add("schemaless-prefix")
